@@ -398,7 +398,8 @@ class BeliefPropagationDecoder(BaseBlockDecoder[Union[LinearBlockCodeEncoder, LD
             members = len(v_group)
             edges_list = list(itemgetter(*v_group)(self.marg_ec))
             if members == 1:
-                edges = torch.stack(edges_list, dim=0).view(1, -1)
+                # (a variable node that takes part in no check has no edges: shape (1, 0))
+                edges = self.marg_ec[v_group[0]].view(1, -1)
             else:
                 edges = torch.stack(edges_list, dim=0)
             edges = edges.unsqueeze(0).repeat_interleave(batch_size, dim=0)
